@@ -59,6 +59,11 @@ int check_udiag(const vf_api *P, const ldc *Ud, int n, char *why, size_t wl)
 }
 int check_diag_preference(const vf_api *P, const int *perm_r, const int *perm_c, const ldc *Ld, const ldc *Ud,
                           const SuperMatrix *L, int m, int n, double u, int *decisive, int *undecided, char *why, size_t wl)
+{ return check_diag_preference_reuse(P, perm_r, perm_c, Ld, Ud, L, m, n, u, NULL, decisive, undecided, why, wl); }
+/* reuse_perm_r (may be NULL): the row permutation handed to a SamePattern_SameRowPerm refactorization; a column whose pivot is the
+   remembered row is exempt (pivots of an earlier factorization are being reused), every other column follows the fresh policy */
+int check_diag_preference_reuse(const vf_api *P, const int *perm_r, const int *perm_c, const ldc *Ld, const ldc *Ud,
+                          const SuperMatrix *L, int m, int n, double u, const int *reuse_perm_r, int *decisive, int *undecided, char *why, size_t wl)
 {
     /* For column j (permuted numbering) the library's "diagonal" is the original row whose index equals the
        original index of that column.  Candidates at step j are the rows of L(:,j)'s structure; their
@@ -88,6 +93,7 @@ int check_diag_preference(const vf_api *P, const int *perm_r, const int *perm_c,
         if (pd == j) { if (cd < pivmax * (1 - 64 * P->eps)) (*decisive)++; continue; }   /* diagonal chosen although not the maximum */
         /* diagonal was a candidate and was NOT chosen: it must have failed the test */
         if (cd == 0) continue;
+        if (reuse_perm_r && reuse_perm_r[ipr[j]] == j) continue;      /* the remembered pivot row was kept for this column */
         ld thr = (ld)u * pivmax;
         if (cd >= thr * (1 + 64 * P->eps)) {
             bad = 1; snprintf(why, wl, "column %d: diagonal candidate (orig row %d) has |c_d| = %.6Lg >= u*max = %.6Lg (u=%g) but row %d was chosen as pivot", j, d, cd, thr, u, ipr[j]);
@@ -206,6 +212,34 @@ ld rmul_native(const vf_api *P, ld a, ld b)
 }
 ldc mul_native(const vf_api *P, ldc a, ld f) { return rmul_native(P, creall(a), f) + rmul_native(P, cimagl(a), f) * I; }
 
+ld xdrv_solver_cond(const xdrv *D)
+{
+    /* eta = || |F^-1| W || with W = |L||U| permuted back to F's coordinates (largest of the 1- and inf-norms of both products):
+       the quantity that governs one step of working-precision refinement with a solver whose backward error is bounded by
+       eps*W (Higham, Accuracy and Stability, Thm 12.3/12.4). For a stable factorization W ~ |F| and eta ~ cond(F); with a tiny
+       pivot threshold W >> |F| and refinement may return a worse X than it was given. INFINITY when F is singular to working accuracy. */
+    const vf_api *P = D->P; int n = D->n; vf_mat F; xdrv_factored_matrix(D, &F);
+    ldc *Fd = malloc(sizeof(ldc) * (size_t)n * n), *Fi = malloc(sizeof(ldc) * (size_t)n * n), *Ld = malloc(sizeof(ldc) * (size_t)n * n), *Ud = malloc(sizeof(ldc) * (size_t)n * n);
+    ld *W = malloc(sizeof(ld) * (size_t)n * n), eta = INFINITY;
+    mat_to_dense(&F, Fd);
+    if (dense_inverse(n, Fd, Fi) == 0) {
+        expand_LU(P, &D->L, &D->U, n, n, Ld, Ud); absLU_orig(P, D->perm_r, D->perm_c, Ld, Ud, n, W);
+        ld *r1 = calloc((size_t)n, sizeof(ld)), *c1 = calloc((size_t)n, sizeof(ld)), *r2 = calloc((size_t)n, sizeof(ld)), *c2 = calloc((size_t)n, sizeof(ld));
+        for (int j = 0; j < n; j++) for (int k = 0; k < n; k++) {
+            ld wkj = W[(size_t)j * n + k], ikj = cabsl(Fi[(size_t)j * n + k]);
+            for (int i = 0; i < n; i++) {
+                ld a = cabsl(Fi[(size_t)k * n + i]) * wkj;      /* (|Fi| W)(i,j) += |Fi(i,k)| W(k,j) */
+                r1[i] += a; c1[j] += a;
+                ld b = W[(size_t)k * n + i] * ikj;               /* (W |Fi|)(i,j) += W(i,k) |Fi(k,j)| */
+                r2[i] += b; c2[j] += b;
+            }
+        }
+        eta = 0; for (int i = 0; i < n; i++) { if (r1[i] > eta) eta = r1[i]; if (c1[i] > eta) eta = c1[i]; if (r2[i] > eta) eta = r2[i]; if (c2[i] > eta) eta = c2[i]; }
+        if (!(eta == eta)) eta = INFINITY;
+        free(r1); free(c1); free(r2); free(c2);
+    }
+    free(Fd); free(Fi); free(Ld); free(Ud); free(W); mat_free(&F); return eta;
+}
 ld xdrv_skeel_sigma(const xdrv *D, trans_t trans)
 {
     /* sigma = max_i w_i / min_i w_i with w = |op(F)||y| + |b| over all right-hand sides (INFINITY if some w_i = 0):
